@@ -67,6 +67,7 @@ func GetSession(sid string) (*Session, bool) {
 		// instead of changing the stored one in place.
 		extended := *sess
 		extended.ExpiresAt = time.Now().Add(defaultLifetime)
+		verifYield("session.beforeExtend")
 		// A logout may have removed the session since the lookup above: do not bring it back.
 		if !sessionStore.SetIfPresent(sid, &extended) {
 			return nil, false
